@@ -384,8 +384,8 @@ pub fn run_script(s: &Script) -> Option<Vec<Value>> {
             break; // a panicked operation ends the history (the spec does the same)
         }
     }
-    // virtual time is exact only inside one wall-clock second; configurations without ttl do not care
-    if s.cfg.ttl != 0 && (unix_now() != sec0 || t0.elapsed() > Duration::from_millis(900)) {
+    // virtual time (and the ages shown in the projected state) is exact only inside one wall-clock second
+    if unix_now() != sec0 || t0.elapsed() > Duration::from_millis(900) {
         return None;
     }
     Some(out)
@@ -393,7 +393,7 @@ pub fn run_script(s: &Script) -> Option<Vec<Value>> {
 
 pub fn run_script_retry(s: &Script) -> Vec<Value> {
     for attempt in 0..60 {
-        if attempt > 0 && s.cfg.ttl != 0 {
+        if attempt > 0 {
             align_to_second();
         }
         if let Some(v) = run_script(s) {
